@@ -338,7 +338,7 @@ def preload() -> None:
 
     for pkg in (schemathesis, vfw):
         for info in pkgutil.walk_packages(pkg.__path__, pkg.__name__ + "."):
-            if info.name.startswith(("schemathesis.pytest", "vfw.fuzz", "vfw.run", "vfw.shard")):
+            if info.name.startswith(("schemathesis.pytest", "vfw.fuzz", "vfw.run", "vfw.shard", "vfw.harness.pytest_")):
                 continue
             try:
                 importlib.import_module(info.name)
